@@ -50,6 +50,7 @@ Section Final.
   Notation AV := (av_rel (sc k)).
   Notation AR := (AlgRel (GIn XQ) (LayoutOutput XQ) (GLay XQ) (fin_rel k) (output_rel k) (flay_rel k)).
   Notation arc_rel := ScaleAbs.arc_rel.
+  Notation Alg := (Engine.Alg (GIn XQ) (LayoutOutput XQ) (GLay XQ)).
 
   (* ---- small facts *)
   Lemma rel_size_ZERO' : sz_rel L (@size_ZERO XQ _) size_ZERO.
@@ -137,4 +138,73 @@ Section Final.
   Qed.
   Lemma rel_size_f32_max a a' b b' : sz_rel L a a' -> sz_rel L b b' -> sz_rel L (size_f32_max a b) (size_f32_max a' b').
   Proof. intros [H1 H2] [H3 H4]. split; cbn [width height]; apply (sc_max k); assumption. Qed.
+
+  (* ---- 5. the in-flow pass *)
+  Lemma rel_inflow_pass_gen cas cols cols' rows rows' (K K' : Size XQ -> list (@Placed XQ) -> Alg) :
+    tracks_rel k cols cols' -> tracks_rel k rows rows' ->
+    (forall c c' p p', sz_rel L c c' -> Forall2 (placed_rel k) p p' -> AR (K c p) (K' c' p')) ->
+    forall items items', Forall2 (gitem_rel k) items items' -> forall index content content' acc acc',
+    sz_rel L content content' -> Forall2 (placed_rel k) acc acc' ->
+    AR (inflow_pass cas cols rows items index content acc K) (inflow_pass cas cols' rows' items' index content' acc' K').
+  Proof.
+    intros Hc Hr HK items items' Hi. induction Hi as [|g g' r r' Hg Hrr IH]; intros index content content' acc acc' Hct Hacc; cbn [inflow_pass].
+    - apply HK; [exact Hct|apply rel_rev; exact Hacc].
+    - pose proof Hg as (En & Ws & _ & _ & _ & Eix & _ & _ & _ & Hshim & _). rewrite En, Eix.
+      destruct (width (g_ix g)) as [cs_ ce], (height (g_ix g)) as [rs re].
+      assert (Ha : arc_rel L (AB.mkRect (track_offset cols (S cs_)) (track_offset cols ce) (track_offset rows (S rs)) (track_offset rows re))
+                             (AB.mkRect (track_offset cols' (S cs_)) (track_offset cols' ce) (track_offset rows' (S rs)) (track_offset rows' re)))
+        by (repeat split; apply rel_track_offset; assumption).
+      set (area := AB.mkRect (track_offset cols (S cs_)) _ _ _) in *. set (area' := AB.mkRect (track_offset cols' (S cs_)) _ _ _) in *. clearbody area area'.
+      apply AR_query; [apply rel_position_query_input; assumption|]. intros o o' Ho.
+      pose proof (rel_position_layout area area' cas _ _ _ _ index o o' Ha Hshim Ws Ho) as Hl.
+      apply AR_set; [exact Hl|]. apply IH.
+      + apply rel_size_f32_max; [exact Hct|apply rel_content_size_contribution; assumption].
+      + constructor; [|exact Hacc]. destruct Hl as (_ & [_ Hy] & [_ Hh] & _). split; [exact Hg|]. split; assumption.
+  Qed.
+  Lemma rel_inflow_pass cas cols cols' rows rows' items items' index content content' acc acc' (K K' : Size XQ -> list (@Placed XQ) -> Alg) :
+    tracks_rel k cols cols' -> tracks_rel k rows rows' -> Forall2 (gitem_rel k) items items' -> sz_rel L content content' ->
+    Forall2 (placed_rel k) acc acc' ->
+    (forall c c' p p', sz_rel L c c' -> Forall2 (placed_rel k) p p' -> AR (K c p) (K' c' p')) ->
+    AR (inflow_pass cas cols rows items index content acc K) (inflow_pass cas cols' rows' items' index content' acc' K').
+  Proof. intros. apply rel_inflow_pass_gen; assumption. Qed.
+
+  (* ---- 6. the area of an absolutely positioned child *)
+  Lemma rel_abs_area P P' bb bb' cols cols' rows rows' cix rix : pre_rel k P P' -> sz_rel L bb bb' -> tracks_rel k cols cols' ->
+    tracks_rel k rows rows' -> arc_rel L (abs_area P bb cols rows cix rix) (abs_area P' bb' cols' rows' cix rix).
+  Proof.
+    intros (_ & (B1 & B2 & B3 & B4) & _ & _ & _ & _ & [G1 G2] & _) [Hw Hh] Hc Hr. unfold abs_area.
+    destruct cix as [[c1|] [c2|]], rix as [[r1|] [r2|]]; cbn [fst snd]; repeat split;
+      cbn [AB.r_left AB.r_right AB.r_top AB.r_bottom]; try (apply rel_track_offset; assumption); try assumption;
+      repeat apply sc_sub; assumption.
+  Qed.
+
+  (* ---- 7. hidden and absolutely positioned children *)
+  Lemma rel_out_of_flow_pass_gen P P' cas cc rc bb bb' cols cols' rows rows' (K K' : Size XQ -> Alg) :
+    pre_rel k P P' -> sz_rel L bb bb' -> tracks_rel k cols cols' -> tracks_rel k rows rows' ->
+    (forall c c', sz_rel L c c' -> AR (K c) (K' c')) ->
+    forall children children', Forall2 (oof_rel k) children children' -> forall index order content content', sz_rel L content content' ->
+    AR (out_of_flow_pass P cas cc rc bb cols rows children index order content K)
+       (out_of_flow_pass P' cas cc rc bb' cols' rows' children' index order content' K').
+  Proof.
+    intros HP Hbb Hc Hr HK children children' Hch.
+    induction Hch as [|c c' r r' Hcc Hrr IH]; intros index order content content' Hct; cbn [out_of_flow_pass].
+    - apply HK. exact Hct.
+    - destruct c as [|cs|], c' as [|cs'|]; cbn [oof_rel] in Hcc; try contradiction.
+      + apply AR_query; [apply rel_g_hidden_child_input|]. intros _ _ _. apply AR_set; [apply rel_g_with_order|]. apply IH. exact Hct.
+      + gw_open Hcc. rewrite Wcol, Wrow.
+        destruct (abs_indexes (gs_column cs) cc) as [cix|]; [|apply AR_ret; apply rel_panic_out].
+        destruct (abs_indexes (gs_row cs) rc) as [rix|]; [|apply AR_ret; apply rel_panic_out].
+        pose proof (rel_abs_area P P' bb bb' cols cols' rows rows' cix rix HP Hbb Hc Hr) as Ha.
+        set (area := abs_area P bb cols rows cix rix) in *. set (area' := abs_area P' bb' cols' rows' cix rix) in *. clearbody area area'.
+        apply AR_query; [apply rel_position_query_input; try assumption; apply sc_zero|]. intros o o' Ho.
+        pose proof (rel_position_layout area area' cas _ _ _ _ order o o' Ha (sc_zero k) Hcc Ho) as Hl.
+        apply AR_set; [exact Hl|]. apply IH. apply rel_size_f32_max; [exact Hct|apply rel_content_size_contribution; assumption].
+      + apply IH. exact Hct.
+  Qed.
+  Lemma rel_out_of_flow_pass P P' cas cc rc bb bb' cols cols' rows rows' children children' index order content content' (K K' : Size XQ -> Alg) :
+    pre_rel k P P' -> sz_rel L bb bb' -> tracks_rel k cols cols' -> tracks_rel k rows rows' -> Forall2 (oof_rel k) children children' ->
+    sz_rel L content content' -> (forall c c', sz_rel L c c' -> AR (K c) (K' c')) ->
+    AR (out_of_flow_pass P cas cc rc bb cols rows children index order content K)
+       (out_of_flow_pass P' cas cc rc bb' cols' rows' children' index order content' K').
+  Proof. intros. apply rel_out_of_flow_pass_gen; assumption. Qed.
 End Final.
